@@ -178,6 +178,40 @@ def output_mode_single(nb: bool, fail: bool) -> bool:
     return raised is None and env.fs['o.py'] == (b'A' if nb else b'MA') and all(p == 'o.py' for p in env.written_paths())
 
 
+POOL = [
+    b'__all__ = ["shared_name"]\nshared_name = 1\nother_value = shared_name\n',
+    b'shared_name = 2\nresult_value = shared_name + shared_name\nprint(result_value, result_value)\n',
+    b'def f[T](x: T) -> T:\n    long_local = x\n    return long_local\n',
+    b'def g(a):\n    T = a + a\n    return T + T + T\n',
+    b'x=1',
+    b'True if 0in x else False',
+]
+
+
+def two_files_api(i: int, j: int, k: int, rg: bool) -> bool:
+    """
+    pre: 0 <= i < 6 and 0 <= j < 6 and 0 <= k < 6
+    post: _
+    """
+    # one in-place run over three files with the real do_minify and the real minify: afterwards every file holds its
+    # original bytes or exactly what the API returns for those bytes and the same options in a fresh call
+    import python_minifier
+    from python_minifier.transforms.remove_annotations_options import RemoveAnnotationsOptions
+    src = [POOL[i], POOL[j], POOL[k]]
+    paths = ['d/one.py', 'd/two.py', 'three.py']
+    env = Env(fs=[[paths[n], src[n]] for n in range(3)], dirs=[['d', [('d', [], ['one.py', 'two.py'])]]])
+    args = namespace(['d', 'three.py'], in_place=True, rename_globals=rg)
+    with env.installed(args=args) as m:
+        m.main()
+    for n in range(3):
+        api = python_minifier.minify(src[n], filename=paths[n], rename_globals=rg, preserve_globals=[], preserve_locals=[],
+                                     remove_annotations=RemoveAnnotationsOptions()).encode('utf-8')
+        want = api if len(api) <= len(src[n]) else src[n]
+        if env.fs[paths[n]] != want:
+            return False
+    return True
+
+
 def public_selection(f1, f2, f3, direct):
     return public_inplace_tree(f1, f2, f3, direct, False, False, False, 4, 0)
 
@@ -262,5 +296,7 @@ def obligations(tier, seed):
              bounds='one symbolic name |f| <= %d between a.py and c.pyw; failure position 0-3, 4 failure kinds, 2^3 benefit patterns, optional direct argument' % n,
              public_replay='public_failure'),
         dict(name='C15.inplace_tree.twin', fn='inplace_tree_twin', shards=[[]], timeout=t, expect='refuted', bounds='reachability twin'),
+        dict(name='C15.two_files_api', fn='two_files_api', shards=[['rg == %s' % b, 'i %% 2 == %d' % r] for b in (True, False) for r in (0, 1)], timeout=t,
+             bounds='three files drawn from a pool of 6 sources (literal __all__, type parameters, plain, not-beneficial), real minify, rename_globals on/off'),
         dict(name='C15.output_mode_single', fn='output_mode_single', shards=[[]], timeout=t, bounds='--output with one source'),
     ]
